@@ -70,7 +70,7 @@ func cmdOne(args []string) {
 	tier := fs.String("tier", "quick", "")
 	dump := fs.String("dump", "", "write trace here")
 	fs.Parse(args)
-	loadKnown("/verif/known_findings.json")
+	loadKnown(defaultFindings())
 	if pf := os.Getenv("LAYERSIM_CPUPROFILE"); pf != "" {
 		f, _ := os.Create(pf)
 		pprof.StartCPUProfile(f)
@@ -125,7 +125,7 @@ func cmdWorker(args []string) {
 	deadline := fs.Int64("deadline", 0, "unix seconds")
 	out := fs.String("out", "", "jsonl output")
 	tmp := fs.String("tmp", os.TempDir(), "where failing traces go")
-	findings := fs.String("findings", "/verif/known_findings.json", "")
+	findings := fs.String("findings", defaultFindings(), "")
 	fs.Parse(args)
 	loadKnown(*findings)
 	f, err := os.Create(*out)
@@ -224,7 +224,7 @@ func cmdBatch(args []string) {
 	workers := fs.Int("workers", 16, "")
 	evidence := fs.String("evidence", "", "")
 	replays := fs.String("replays", "/verif/replays", "")
-	findings := fs.String("findings", "/verif/known_findings.json", "")
+	findings := fs.String("findings", defaultFindings(), "")
 	fs.Parse(args)
 	start := time.Now()
 	base := uint64(1)
@@ -486,7 +486,7 @@ func cmdReplay(args []string) {
 	if prop == "" && tr.Violation != nil {
 		prop = tr.Violation.Property
 	}
-	loadKnown("/verif/known_findings.json")
+	loadKnown(defaultFindings())
 	res := sim.Replay(tr, optsFor(prop))
 	if res.Internal != nil {
 		fmt.Println("INTERNAL:", res.Internal)
@@ -509,4 +509,15 @@ func cmdReplay(args []string) {
 		os.Exit(1)
 	}
 	fmt.Println("no violation of", prop, "on replay")
+}
+
+// defaultFindings: known_findings.json next to the framework this binary was built in (<root>/bin/layersim).
+func defaultFindings() string {
+	if exe, err := os.Executable(); err == nil {
+		p := filepath.Join(filepath.Dir(filepath.Dir(exe)), "known_findings.json")
+		if _, err := os.Stat(p); err == nil {
+			return p
+		}
+	}
+	return "/verif/known_findings.json"
 }
